@@ -1,4 +1,14 @@
 #!/bin/sh
-set -e
-cd "$(dirname "$0")/lean"
-lake build PonyVerif driver
+# Build the framework from files on disk only (offline): regenerate the translated definitions and the driver,
+# then compile the Lean library (all models, lemmas, property theorems) and the driver executable.
+cd "$(dirname "$0")"
+/venv/bin/python - <<'PY'
+import sys; sys.path.insert(0, 'harness')
+import framework, py2lean
+print(py2lean.regenerate(framework.REPO, framework.LEAN).keys())
+framework.generate_driver()
+PY
+cd lean
+lake build driver || echo "setup: driver build failed (checks fall back to per-property drivers)"
+lake build PonyVerif || echo "setup: some Lean modules failed to build (each check rebuilds and reports what it needs)"
+exit 0
